@@ -263,6 +263,13 @@ static Probe probe(const Plan& plan, const Target& t) {
       pr.msg = "silent death";
     }
   }
+  if (t.crash && t.oracle == "valgrind") {
+    // memcheck: the forked copy exits with the error exit code at its first error, or at its leak check
+    if (WIFEXITED(status) && WEXITSTATUS(status) == 78) {
+      pr.hit = true;
+      pr.msg = "silent death";
+    }
+  }
   for (const std::string& l : split_lines(buf)) {
     if (!t.crash && l.compare(0, 4, "HIT ") == 0) {
       std::vector<std::string> w = split_ws(l);
@@ -382,6 +389,7 @@ static Plan minimise(Plan plan, const Target& t, int budget) {
 int main(int argc, char** argv) {
   std::string data = "data", mode, file, profile = "GEN", out, tprop, toracle, tsig, variant = "?";
   uint64_t seed = 1, start = 0, count = 1, index = 0;
+  int budget = 600;
   bool tcrash = false;
   for (int i = 1; i < argc; ++i) {
     std::string a = argv[i];
@@ -403,6 +411,7 @@ int main(int argc, char** argv) {
     else if (a == "--sig") tsig = pct_decode(nxt());
     else if (a == "--crash") tcrash = true;
     else if (a == "--variant") variant = nxt();
+    else if (a == "--budget") budget = atoi(nxt().c_str());
     else sim_die(("unknown argument " + a).c_str());
   }
   load_catalogue(data);
@@ -495,7 +504,7 @@ int main(int argc, char** argv) {
           g_history.assign(full.end() - (long)keep, full.end());
           if (probe(plan, t).hit || keep == full.size()) break;
         }
-        for (size_t i = 0; i < g_history.size() && g_probe_count < 300;) {
+        for (size_t i = 0; i < g_history.size() && g_probe_count < budget / 2;) {
           std::vector<Plan> saved = g_history;
           g_history.erase(g_history.begin() + (long)i);
           if (probe(plan, t).hit) continue;
@@ -504,12 +513,12 @@ int main(int argc, char** argv) {
         }
       }
     }
-    Plan m = minimise(plan, t, 600);
+    Plan m = minimise(plan, t, budget);
     // the remaining history plans are minimised too, one after the other, with the final plan fixed
-    for (size_t hi = 0; hi < g_history.size() && g_probe_count < 900; ++hi) {
+    for (size_t hi = 0; hi < g_history.size() && g_probe_count < budget + budget / 2; ++hi) {
       Plan hp = g_history[hi];
       // greedy single-step removal inside the history plan
-      for (size_t i = 0; i < hp.steps.size() && hp.steps.size() > 1 && g_probe_count < 900;) {
+      for (size_t i = 0; i < hp.steps.size() && hp.steps.size() > 1 && g_probe_count < budget + budget / 2;) {
         Plan c = hp;
         c.steps.erase(c.steps.begin() + (long)i);
         Plan saved = g_history[hi];
